@@ -29,7 +29,8 @@ TIERS = {"quick": {"n": 450}, "thorough": {"n": 9000}}
 RULE = ("one case = one (configuration, initial directory, body, fault schedule) of atomic_save/AtomicSaver, run once "
         "to completion and once more per crash point k (child killed with os._exit immediately before the k-th "
         "state-changing primitive: unlink/open/fdopen/chmod/write/flush/fsync/close/rename/link), the real directory "
-        "(names, bytes, modes) scanned after each; non-trivial = the run reached publication (rename/link to the "
+        "(names, bytes, modes) scanned after each; a quarter of the cases additionally get 1-3 real SIGKILLs at "
+        "arbitrary instants of a slowed-down run (the directory must equal the model's at SOME crash point); non-trivial = the run reached publication (rename/link to the "
         "destination) and at least 6 crash points were really executed; distinct = distinct canonical case hash")
 ASSUMPTIONS = [
     "POSIX file-system semantics as modelled in Model/C04_Model.v: rename/link atomically rebind a name, O_CREAT|O_EXCL "
@@ -118,6 +119,7 @@ class Ctx:
         self.body_idx = None
         self.appeared = False
         self.fd = None
+        self.slow = 0.0
 
     def tok(self, path):
         ap = os.path.abspath(os.fspath(path))
@@ -143,6 +145,9 @@ class Ctx:
         """ev: list describing the primitive (without result).  Crash point,
         scheduled interference, scheduled fault, then the real call."""
         k = self.tick
+        if self.slow:
+            import time
+            time.sleep(self.slow)
         if self.crash is not None and k == self.crash:
             self.dump({"killed_at": k})
             os._exit(0)
@@ -255,6 +260,8 @@ class Rec:
 
     def open(self, path, flags, mode=0o777, **kw):
         c = self._ctx
+        if not flags & (os.O_WRONLY | os.O_RDWR | os.O_CREAT | os.O_TRUNC | os.O_APPEND):
+            return os.open(path, flags, mode, **kw)      # read-only open (e.g. of the directory): not an event
         excl = bool(flags & os.O_EXCL) and bool(flags & os.O_CREAT)
         trunc = bool(flags & os.O_TRUNC)
 
@@ -300,9 +307,13 @@ class Rec:
         return c.event(["link", c.tok(src), c.tok(dst)], lambda: os.link(src, dst, **kw))
 
     def fsync(self, fd):
+        if fd != self._ctx.fd:
+            return os.fsync(fd)                           # syncing something else (the directory): not an event
         return self._ctx.event(["fsync"], lambda: os.fsync(fd))
 
     def fdatasync(self, fd):
+        if fd != self._ctx.fd:
+            return os.fdatasync(fd)
         return self._ctx.event(["fsync"], lambda: os.fdatasync(fd))
 
 
@@ -396,9 +407,12 @@ def scan(tmpdir, names):
     return out
 
 
-def run_child(tmpdir, cfg, umask, body, body_exc, sched, crash):
+def run_child(tmpdir, cfg, umask, body, body_exc, sched, crash, slow=0.0, kill_after=None):
     """Fork; the child runs the save with the recorder installed and reports
-    through a pipe.  Returns the child's report (dict)."""
+    through a pipe.  Returns the child's report (dict).  With kill_after the
+    parent SIGKILLs the child after that many seconds (the child pauses `slow`
+    seconds before every event so that the kill lands somewhere inside the save)
+    and returns None."""
     rfd, wfd = os.pipe()
     pid = os.fork()
     if pid == 0:
@@ -407,6 +421,7 @@ def run_child(tmpdir, cfg, umask, body, body_exc, sched, crash):
             os.close(rfd)
             os.umask(umask)
             ctx = Ctx(tmpdir, _names(cfg), crash, sched, wfd)
+            ctx.slow = slow
             try:
                 import boltons.fileutils as fu
                 fu.os = Rec(ctx)
@@ -419,6 +434,17 @@ def run_child(tmpdir, cfg, umask, body, body_exc, sched, crash):
         finally:
             os._exit(code)
     os.close(wfd)
+    if kill_after is not None:
+        import signal
+        import time
+        time.sleep(kill_after)
+        try:
+            os.kill(pid, signal.SIGKILL)
+        except ProcessLookupError:
+            pass
+        os.close(rfd)
+        os.waitpid(pid, 0)
+        return None
     chunks = []
     while True:
         b = os.read(rfd, 1 << 16)
@@ -461,7 +487,8 @@ def run_impl(case):
     cfg = case["cfg"]
     rep, files, tmpdir = run_once(case, keep=True)
     try:
-        obs = {"run": {"trace": rep["trace"], "outcome": rep["outcome"], "files": files}, "crashes": [], "retry": None}
+        obs = {"run": {"trace": rep["trace"], "outcome": rep["outcome"], "files": files,
+                       "intruded": bool(rep.get("appeared"))}, "crashes": [], "retry": None}
         if case.get("retry"):
             rep2 = run_child(tmpdir, cfg, case.get("umask", 0o022), case["body"], False, [], None)
             obs["retry"] = {"trace": rep2["trace"], "outcome": rep2["outcome"], "files": scan(tmpdir, _names(cfg))}
@@ -480,6 +507,18 @@ def run_impl(case):
             raise RuntimeError("non-deterministic run: crash run %d diverges from the full run: %r vs %r"
                                % (k, repk, rep["trace"][:k]))
         obs["crashes"].append([k, filesk])
+    # SIGKILL at arbitrary instants (fractions of the slowed-down run's duration)
+    obs["asyncs"] = []
+    for frac in case.get("async", []):
+        slow = 0.002
+        tmpdir = fresh_dir()
+        try:
+            _populate(tmpdir, cfg, case["init"])
+            run_child(tmpdir, cfg, case.get("umask", 0o022), case["body"], case.get("body_exc", False),
+                      case.get("sched", []), None, slow=slow, kill_after=0.003 + frac * (nev + 2) * (slow + 0.0005))
+            obs["asyncs"].append(scan(tmpdir, _names(cfg)))
+        finally:
+            shutil.rmtree(tmpdir, ignore_errors=True)
     return obs
 
 
@@ -612,7 +651,8 @@ def c_trace(trace, tb):
 
 
 def c_runobs(r, tb):
-    return "(mkRun %s %s %s)" % (c_trace(r["trace"], tb), c_outcome(r["outcome"]), c_files(r["files"], tb))
+    return "(mkRun %s %s %s %s)" % (c_trace(r["trace"], tb), c_outcome(r["outcome"]), c_files(r["files"], tb),
+                                    cbool(r.get("intruded", False)))
 
 
 def case_term(case, obs, tb):
@@ -620,11 +660,12 @@ def case_term(case, obs, tb):
     new = utf8("".join(data_of(op) for op in case["body"] if op[0] == "w"))
     if len(new) > 3:
         tb.ref(new)
-    return "(mkCase %s %s %s %s %s %s %s %s)" % (
+    return "(mkCase %s %s %s %s %s %s %s %s %s)" % (
         c_cfg(case["cfg"]), cN(case.get("umask", 0o022)), c_init(case, tb),
         c_body(case, obs["run"]["trace"], tb), cbool(case.get("body_exc", False)), c_sched(case, tb),
         c_runobs(obs["run"], tb),
-        clist("(%s, %s)" % (cnat(k), c_files(f, tb)) for k, f in obs["crashes"]))
+        clist("(%s, %s)" % (cnat(k), c_files(f, tb)) for k, f in obs["crashes"]),
+        clist(c_files(f, tb) for f in obs.get("asyncs", [])))
 
 
 def to_coq(case, obs):
@@ -716,6 +757,9 @@ def generate(rng, tier, n):
             case["sched"] = [[rng.randint(0, 9), "fault", rng.choice([EIO, ENOSPC, EPERM])]]
         if big_budget:
             case["crash"] = sorted(set(rng.sample(range(0, 12), 5)))
+        elif rng.random() < (0.25 if tier == "quick" else 0.5):
+            # a few real SIGKILLs at arbitrary instants of a slowed-down run
+            case["async"] = [round(rng.random(), 3) for _ in range(rng.randint(1, 3))]
         i += 1
         yield case
 
@@ -768,6 +812,9 @@ def distribution(d, case, obs):
     bump("writes", str(min(len([o for o in case["body"] if o[0] == "w"]), 6)))
     d["kills"] = d.get("kills", 0) + len([1 for k, _ in obs["crashes"] if k < len(obs["run"]["trace"])])
     d["published"] = d.get("published", 0) + (1 if published(obs) else 0)
+    d["async_sigkills"] = d.get("async_sigkills", 0) + len(obs.get("asyncs", []))
+    d["async_sigkills_midway"] = d.get("async_sigkills_midway", 0) + len(
+        [1 for f in obs.get("asyncs", []) if f != obs["run"]["files"] and f != (obs["crashes"][0][1] if obs["crashes"] else None)])
     vis = 0
     for k, files in obs["crashes"]:
         for f in files:
